@@ -67,8 +67,8 @@ theorem mmapRange_none (k : Kernel) (addr size page : Nat) (sc : Script) (k' : K
       have := mmapCall_none hm; subst this
       obtain ⟨g1, g2⟩ := grantMapCall_true hg
       constructor
-      · simp [grantUnmapCall, g1]
-      · simp [grantUnmapCall, g2]
+      · simp [grantUnmapCall, g1, g2]
+      · simp [grantUnmapCall, g1, g2]
     | some a => simp at h
 
 theorem mmapRange_some (k : Kernel) (addr size page : Nat) (sc : Script) (a ms idx : Nat) (k' : Kernel) (sc' : Script)
@@ -124,7 +124,7 @@ theorem newMap_error_same (r : Req) (f : Flags) (page : Nat) (k : Kernel) (sc : 
         | false =>
           simp at h; rw [← h.2.1]
           obtain ⟨_, m1, m2⟩ := mmapCall_some hm
-          exact ⟨by simp [munmapCall, m1], by simp [munmapCall, m2]⟩
+          exact ⟨by simp [munmapCall, m1, m1, m2], by simp [munmapCall, m1, m2]⟩
         | true => simp at h
   · split at h
     · -- grant
@@ -248,7 +248,7 @@ theorem newMap_ok_drop (r : Req) (f : Flags) (page : Nat) (k : Kernel) (sc : Scr
         | true =>
           simp at h; obtain ⟨h1, h2, _⟩ := h; subst h1; subst h2
           obtain ⟨_, m1, m2⟩ := mmapCall_some hm
-          exact ⟨by simp [dropMap, munmapCall, m1], by simp [dropMap, munmapCall, m2]⟩
+          exact ⟨by simp [dropMap, munmapCall, m1, m1, m2], by simp [dropMap, munmapCall, m1, m2]⟩
   · split at h
     · split at h
       · simp at h
@@ -261,8 +261,8 @@ theorem newMap_ok_drop (r : Req) (f : Flags) (page : Nat) (k : Kernel) (sc : Scr
             obtain ⟨a, ms, idx⟩ := t
             simp at h; obtain ⟨h1, h2, _⟩ := h; subst h1; subst h2
             obtain ⟨_, _, m1, m2⟩ := mmapRange_some _ _ _ _ _ _ _ _ _ _ hr
-            exact ⟨by simp [dropMap, unmapRange, munmapCall, grantUnmapCall, m1],
-                   by simp [dropMap, unmapRange, munmapCall, grantUnmapCall, m2]⟩
+            exact ⟨by simp [dropMap, unmapRange, munmapCall, grantUnmapCall, m1, m1, m2],
+                   by simp [dropMap, unmapRange, munmapCall, grantUnmapCall, m1, m2]⟩
         · simp at h; obtain ⟨h1, h2, _⟩ := h; subst h1; subst h2; exact ⟨rfl, rfl⟩
     · split at h
       · simp at h
@@ -273,7 +273,7 @@ theorem newMap_ok_drop (r : Req) (f : Flags) (page : Nat) (k : Kernel) (sc : Scr
         | some a =>
           simp at h; obtain ⟨h1, h2, _⟩ := h; subst h1; subst h2
           obtain ⟨_, m1, m2⟩ := mmapCall_some hm
-          exact ⟨by simp [dropMap, munmapCall, m1], by simp [dropMap, munmapCall, m2]⟩
+          exact ⟨by simp [dropMap, munmapCall, m1, m1, m2], by simp [dropMap, munmapCall, m1, m2]⟩
 
 /-- what a successful `from_range` returns -/
 theorem fromRange_ok_inv (r : Req) (page : Nat) (k : Kernel) (sc : Script) (reg : Region) (k' : Kernel) (sc' : Script)
@@ -424,6 +424,158 @@ theorem guestRegionFromRange_ok_iff (r : Req) (guestBase page : Nat) (k : Kernel
     · simp [hlt]
     · simp [hlt]
 
+
+/-! ### "exactly once": nothing is ever released that is not held (`faults` stays where it was) -/
+theorem mmapCall_faults (k : Kernel) (size : Nat) (sc : Script) : (mmapCall k size sc).2.1.faults = k.faults := by
+  unfold mmapCall; split <;> rfl
+
+theorem grantMapCall_faults (k : Kernel) (i c : Nat) (sc : Script) : (grantMapCall k i c sc).2.1.faults = k.faults := by
+  unfold grantMapCall; split <;> rfl
+
+theorem munmapCall_held {k : Kernel} {a s : Nat} (h : (a, s) ∈ k.maps) :
+    (munmapCall k a s).faults = k.faults ∧ (munmapCall k a s).grants = k.grants := by
+  unfold munmapCall; simp [h]
+
+theorem grantUnmapCall_held {k : Kernel} {i c : Nat} (h : (i, c) ∈ k.grants) :
+    (grantUnmapCall k i c).faults = k.faults ∧ (grantUnmapCall k i c).maps = k.maps := by
+  unfold grantUnmapCall; simp [h]
+
+theorem mmapRange_faults (k : Kernel) (addr size page : Nat) (sc : Script) :
+    (mmapRange k addr size page sc).2.1.faults = k.faults := by
+  unfold mmapRange
+  simp only [pages]
+  generalize hg : grantMapCall k (grantIndex addr page) (divCeil size page) sc = g
+  obtain ⟨b, k1, sc1⟩ := g
+  have f1 : k1.faults = k.faults := by have := grantMapCall_faults k (grantIndex addr page) (divCeil size page) sc; rw [hg] at this; exact this
+  cases b with
+  | false => simpa using f1
+  | true =>
+    simp only
+    generalize hm : mmapCall k1 (page * divCeil size page) sc1 = m
+    obtain ⟨o, k2, sc2⟩ := m
+    have f2 : k2.faults = k1.faults := by have := mmapCall_faults k1 (page * divCeil size page) sc1; rw [hm] at this; exact this
+    cases o with
+    | none =>
+      have := mmapCall_none hm; subst this
+      obtain ⟨_, g2⟩ := grantMapCall_true hg
+      have := (grantUnmapCall_held (k := k2) (i := grantIndex addr page) (c := divCeil size page) (by rw [g2]; exact List.mem_cons_self)).1
+      simp only; rw [this, f1]
+    | some a => simp only; rw [f2, f1]
+
+theorem newMap_faults (r : Req) (f : Flags) (page : Nat) (k : Kernel) (sc : Script) :
+    (newMapWith mmapRange r f page k sc).2.1.faults = k.faults := by
+  unfold newMapWith
+  split
+  · split
+    · rfl
+    · simp only [pages]
+      generalize hm : mmapCall k (page * divCeil r.size page) sc = m
+      obtain ⟨o, k1, sc1⟩ := m
+      have f1 : k1.faults = k.faults := by have := mmapCall_faults k (page * divCeil r.size page) sc; rw [hm] at this; exact this
+      cases o with
+      | none => simpa using f1
+      | some a =>
+        simp only
+        generalize hp : privcmdCall sc1 = p
+        obtain ⟨b, sc2⟩ := p
+        cases b with
+        | false =>
+          obtain ⟨_, m1, _⟩ := mmapCall_some hm
+          have := (munmapCall_held (k := k1) (a := a) (s := page * divCeil r.size page) (by rw [m1]; exact List.mem_cons_self)).1
+          simp only; rw [this, f1]
+        | true => simpa using f1
+  · split
+    · split
+      · rfl
+      · split
+        · generalize hr : mmapRange k r.guestBase r.size page sc = x
+          obtain ⟨o, k1, sc1⟩ := x
+          have f1 : k1.faults = k.faults := by have := mmapRange_faults k r.guestBase r.size page sc; rw [hr] at this; exact this
+          cases o with
+          | none => simpa using f1
+          | some t => obtain ⟨a, ms, idx⟩ := t; simpa using f1
+        · rfl
+    · split
+      · rfl
+      · generalize hm : mmapCall k r.size sc = m
+        obtain ⟨o, k1, sc1⟩ := m
+        have f1 : k1.faults = k.faults := by have := mmapCall_faults k r.size sc; rw [hm] at this; exact this
+        cases o with
+        | none => simpa using f1
+        | some a => simpa using f1
+
+/-- **construction never releases anything it does not hold** — on success, on a refused request, and on every
+    failure path after a partial acquisition (each range and each grant mapping it gives back is one it holds) -/
+theorem fromRange_no_fault (r : Req) (page : Nat) (k : Kernel) (sc : Script) :
+    (fromRange r page k sc).2.1.faults = k.faults := by
+  unfold fromRange fromRangeWith
+  split
+  · rfl
+  · unfold fromRangeCore
+    split
+    · rfl
+    · split
+      · rfl
+      · rename_i f _ _
+        have hf := newMap_faults r f page k sc
+        generalize hn : newMapWith mmapRange r f page k sc = x at hf
+        obtain ⟨o, k1, sc1⟩ := x
+        cases o <;> simpa using hf
+
+/-- dropping a region built by `from_range` releases each of its resources once: nothing it releases is missing -/
+theorem fromRange_then_drop_no_fault (r : Req) (page : Nat) (k : Kernel) (sc : Script) (reg : Region) (k' : Kernel) (sc' : Script)
+    (h : fromRange r page k sc = (.ok reg, k', sc')) : (dropMap k' reg.map page).faults = k.faults := by
+  have hk : k'.faults = k.faults := by have := fromRange_no_fault r page k sc; rw [h] at this; exact this
+  obtain ⟨f, _, _, _, hn, _⟩ := fromRange_ok_inv r page k sc reg k' sc' h
+  rw [← hk]
+  clear hk h
+  unfold newMapWith at hn
+  split at hn
+  · split at hn
+    · simp at hn
+    · simp only [pages] at hn
+      generalize hm : mmapCall k (page * divCeil r.size page) sc = x at hn
+      obtain ⟨o, k1, sc1⟩ := x
+      cases o with
+      | none => simp at hn
+      | some a =>
+        simp only at hn
+        generalize hp : privcmdCall sc1 = p at hn
+        obtain ⟨b, sc2⟩ := p
+        cases b with
+        | false => simp at hn
+        | true =>
+          simp at hn; obtain ⟨h1, h2, _⟩ := hn; rw [← h1, ← h2]
+          obtain ⟨_, m1, _⟩ := mmapCall_some hm
+          exact (munmapCall_held (by rw [m1]; exact List.mem_cons_self)).1
+  · split at hn
+    · split at hn
+      · simp at hn
+      · split at hn
+        · generalize hr : mmapRange k r.guestBase r.size page sc = x at hn
+          obtain ⟨o, k1, sc1⟩ := x
+          cases o with
+          | none => simp at hn
+          | some t =>
+            obtain ⟨a, ms, idx⟩ := t
+            simp at hn; obtain ⟨h1, h2, _⟩ := hn; rw [← h1, ← h2]
+            obtain ⟨_, _, m1, m2⟩ := mmapRange_some _ _ _ _ _ _ _ _ _ _ hr
+            simp only [dropMap, unmapRange]
+            have a1 := munmapCall_held (k := k1) (a := a) (s := ms) (by rw [m1]; exact List.mem_cons_self)
+            have a2 := grantUnmapCall_held (k := munmapCall k1 a ms) (i := idx) (c := (pages r.size page).1) (by rw [a1.2, m2]; exact List.mem_cons_self)
+            rw [a2.1, a1.1]
+        · simp at hn; obtain ⟨h1, h2, _⟩ := hn; rw [← h1, ← h2]; rfl
+    · split at hn
+      · simp at hn
+      · generalize hm : mmapCall k r.size sc = x at hn
+        obtain ⟨o, k1, sc1⟩ := x
+        cases o with
+        | none => simp at hn
+        | some a =>
+          simp at hn; obtain ⟨h1, h2, _⟩ := hn; rw [← h1, ← h2]
+          obtain ⟨_, m1, _⟩ := mmapCall_some hm
+          exact (munmapCall_held (by rw [m1]; exact List.mem_cons_self)).1
+
 /-! ### `fds_overlap` (a convenience check on two built regions) -/
 /-- for regions built through the checked constructors (`start + len` fits, `len > 0`) on one descriptor,
     `fds_overlap` is exactly "the two file ranges intersect", and it does not overflow -/
@@ -484,3 +636,7 @@ end VmMem
 #print axioms VmMem.C15x.fdsOverlap_spec
 #print axioms VmMem.C15x.fdsOverlap_other_fd
 #print axioms VmMem.C15x.fdsOverlap_no_file
+#print axioms VmMem.C15x.mmapRange_faults
+#print axioms VmMem.C15x.newMap_faults
+#print axioms VmMem.C15x.fromRange_no_fault
+#print axioms VmMem.C15x.fromRange_then_drop_no_fault
